@@ -50,6 +50,16 @@ CHECKS.update({
  "C19": ("E-twin", "exploration", "runtime monitor: ideal recursive shadow (one raw kernel watch per directory keyed by its true path) vs the Watcher's recursive watch",
          "Histories over prefix-sharing sibling trees with inner-directory renames, level-by-level mkdir, file operations at every depth and removal of one of 2-3 recursive roots.", TWIN_NOTE + " The recursive feature is enabled through the verif hook (it is not public).", "§4 C19"),
 })
+KQ_NOTE = "The kqueue KERNEL is simulated (harness/gen/tmpl/simunix + kdrv); the backend code is the real backend_kqueue.go/shared.go/fsnotify.go copied from the working tree at build time. Before each run the simulation must reproduce the repository's ~40 applicable testdata scripts' recorded kqueue/freebsd expectations, else the check reports 'broken' (exit 2), never a violation. macOS/NetBSD/OpenBSD/DragonFly deviations are out of reach."
+CHECKS.update({
+ "C15": ("E-enum", "exploration", "runtime oracle over whole finite domains: real translation functions of every backend executed on all native-flag combinations; kernel mask read back from fdinfo; behavioural single-op pass; simulated-kqueue registration read-back",
+         "inotify: all 2^12 x 2^4 masks and all 2^9 requested op sets x follow/no-follow x file/dir/symlink with fdinfo read-back; kqueue: all 2^11 NOTE combinations on the copied backend + registered fflags on the simulator; Windows: all 2^16 masks, all actions, toWindowsFlags on 2^12 masks (functions extracted from the working tree); xSupports of four backends over all 2^9 sets.",
+         "Reference tables written from inotify(7), kqueue(2) and ReadDirectoryChangesW docs. Windows/FEN: only the extracted pure functions run on Linux with the real Win32 constant values; their event loops are out of reach.", "§4 C15"),
+ "C17": ("E-simkq", "exploration", "runtime monitor: descriptor ledger + table snapshots of the real kqueue backend on a simulated kqueue, at simulator quiescence after every step; concurrent variant under the race detector",
+         "Sequential histories over directories with files, sub-directories, FIFOs and symlinks with ledger/table/WatchList invariants after every step, after removing everything and after Close; concurrent Add/Remove/WatchList vs Close. Four recorded findings (K1, K3, K4, K6) are reported as KNOWN-FINDING by shape-specific signatures.", KQ_NOTE, "§2.5, §4 C17"),
+ "C18": ("E-simkq", "exploration", "runtime monitor: reference event model vs the real kqueue backend on a simulated kqueue, per step at quiescence; burst variant with timing-independent assertions",
+         "Sequential histories with quiescence after every step compared (multiset per step) with a model of the documented directory-diff semantics; burst histories judged only on names whose history is unambiguous. Two recorded findings (K3, K4).", KQ_NOTE, "§2.5, §4 C18"),
+})
 PENDING = {}
 ids = [json.loads(l)["id"] for l in open(f"{V}/properties.jsonl")]
 hooks = subprocess.run(["git", "-C", "/repo", "log", "--format=%H %s"], capture_output=True, text=True).stdout.splitlines()
